@@ -315,6 +315,12 @@ def standin_predicates(tier, seed):
     lib += [cirq.ZPowGate(dimension=3) ** 0.25, cirq.XPowGate(dimension=3) ** 0.5, cirq.ZPowGate(dimension=4) ** 0.3, cirq.XPowGate(dimension=3) ** 1.5]
     lib += list(cirq.SingleQubitCliffordGate.all_single_qubit_cliffords[:8])
     lib += [cirq.X**1, cirq.Y**1, cirq.Z**1, cirq.X**1.0, cirq.X**3, cirq.Z**-1]  # equal to the named Paulis but not the same objects
+    # gates NEAR a Clifford value, on both sides and at several distances (a predicate that tolerates round-off must not call these stabilizer gates)
+    near = []
+    for d_ in (0.004, -0.004, 3e-7, -3e-7, 0.0049, -0.0049):
+        near += [cirq.PhasedXZGate(x_exponent=0, z_exponent=d_, axis_phase_exponent=0), cirq.PhasedXZGate(x_exponent=0.5 + d_, z_exponent=0.5, axis_phase_exponent=0.5), cirq.PhasedXZGate(x_exponent=1, z_exponent=0, axis_phase_exponent=0.25 + d_),
+                cirq.Z ** (0.5 + d_), cirq.X ** (1 + d_), cirq.H ** (1 + d_), cirq.CZ ** (1 + d_), cirq.PhasedXPowGate(phase_exponent=0.5 + d_, exponent=0.5), cirq.PhasedXPowGate(phase_exponent=0.25, exponent=1 + d_), cirq.ISWAP ** (1 + d_),
+                cirq.ZZ ** (0.5 + d_), cirq.CNOT ** (1 + d_), cirq.SWAP ** (1 + d_)]
 
     def bad(what, **kw):
         if not any(f["failed"] == what for f in fails):
@@ -330,7 +336,7 @@ def standin_predicates(tier, seed):
         tb, true_ = cirq.trace_distance_bound(g), _true_trace_distance_bound(cirq.unitary(g))
         if tb + 1e-8 < true_:
             bad("trace_distance_bound is smaller than the true trace distance", gate=g, bound=tb, true=true_)
-    for g in lib:
+    for g in lib + near:      # (the near-Clifford gates take part in the per-gate predicates only, not in the pairwise commutation table)
         u = cirq.unitary(g)
         cases += 1
         tb = cirq.trace_distance_bound(g)
@@ -587,7 +593,18 @@ def standin_periodic_equality(tier, seed):
 standin_periodic_equality.prop = "C08"
 
 
-STANDINS = [standin_control_values, standin_predicates, standin_operation_equality, standin_periodic_equality]
+def standin_controlled_matrices(tier, seed):
+    """controlled operations under every control-value assignment (shared with C04): gate.controlled(...) / op.controlled_by(...) / ControlledGate(...) of a
+    global phase, a rotation, a two-qubit gate have the matrix the control values define, in every description"""
+    from contracts.C04_protocols import standin_control_values as f
+
+    r = dict(f(tier, seed))
+    r["case"] = "controlled-matrices"
+    return r
+standin_controlled_matrices.prop = "C08"
+
+
+STANDINS = [standin_control_values, standin_predicates, standin_operation_equality, standin_periodic_equality, standin_controlled_matrices]
 
 CANARIES = [
     dict(name="EigenGate.__pow__ adds instead of multiplies", file="cirq-core/cirq/ops/eigen_gate.py", engine_check=0,
